@@ -879,11 +879,13 @@ theorem parseInt_shape (env : CEnv) (s : List Char) :
     · left; exact ⟨_, rfl⟩
   · right; rfl
 
-/-- what the property needs from the structure of `convert_value` as the source has it now: both failure paths and the
+/-- what the property needs from the structure of `convert_value` as the source has it now: nothing runs in front of the
+    isinstance shortcut (a statement there runs unguarded for every input: `value.decode()` of a byte string that is not
+    valid UTF-8 would escape as UnicodeDecodeError), both failure paths and the
     `str()` path end in ConversionError, ValueError is what the try blocks catch, and `str(True)` / `str(False)` — once
     lower-cased — are literals of the right list only -/
 theorem convert_source_shape :
-    convertBoolFail = .conversion ∧ convertHandlerRaises = .conversion ∧ convertStrHandlerRaises = .conversion ∧
+    convertPrelude = [] ∧ convertBoolFail = .conversion ∧ convertHandlerRaises = .conversion ∧ convertStrHandlerRaises = .conversion ∧
     catches convertCaught .valueError = true ∧ catches convertStrCaught .valueError = true ∧
     "lower" ∈ convertNormalise ∧
     "true" ∈ convertBoolTrue ∧ "false" ∉ convertBoolTrue ∧ "false" ∈ convertBoolFalse ∧ "true" ∉ convertBoolFalse := by decide
